@@ -303,13 +303,27 @@ def run_case(case):
         tid = "//%s:%s" % (pkg, names[0])
         if kind == "cond":
             from conductor.parsing.task_index import TaskIndex
-            ti = TaskIndex(pathlib.Path(root))
-            ident = TI.from_str(tid)
-            ti.load_transitive_closure(ident)
-            deps = [str(d) for d in ti.get_task(ident).deps]
+            from conductor.errors import ConductorError
             want = ["//%s:%s" % (pkg, names[1])]
-            if deps != want:
-                v.append(("relative_resolution", "':%s' listed in //%s/COND resolved to %s, expected %s" % (names[1], pkg, deps, want)))
+            deps = None
+            here = os.getcwd()
+            # the resolution may not depend on the process's working directory either
+            for cwd in (here, root, os.path.join(root, pkg) if pkg else root, "/"):
+                try:
+                    os.chdir(cwd)
+                    ti = TaskIndex(pathlib.Path(root))
+                    ident = TI.from_str(tid)
+                    try:
+                        ti.load_transitive_closure(ident)
+                        deps = [str(d) for d in ti.get_task(ident).deps]
+                    except ConductorError as ex:
+                        deps = "%s: %s" % (type(ex).__name__, ex.printable_message()[:120])
+                finally:
+                    os.chdir(here)
+                if deps != want:
+                    v.append(("relative_resolution", "':%s' listed in //%s/COND resolved to %s (cwd %s), expected %s" % (
+                        names[1], pkg, deps, os.path.relpath(cwd, root) if cwd.startswith(root) else cwd, want)))
+                    break
             labels.append("relative_dep_in_cond_file")
             return Outcome(v, labels, bool(pkg), {"pkg": pkg, "deps": deps})
         from ..isolate import run_cond
